@@ -55,7 +55,7 @@ def skeleton(F, fn):
     sfns = state_fns(F)
     ev = []
     for lb in logical_bodies(F, fn):
-        b = lb.built
+        b = inl(F, lb)
         if not b:
             continue
         order = sorted(b.reachable())
@@ -86,7 +86,8 @@ def skeleton(F, fn):
 
 def pairs(F):
     out = []
-    fns = [f for f in F.find(crate=EY) if f.vis == "pub" or f.name in ("new_async", "new")]
+    # inherent API only: the Stream / Future impls are the poll paths, decided by R16.2 / R16.3 (typestate), not by skeletons
+    fns = [f for f in F.find(crate=EY) if (f.vis == "pub" or f.name in ("new_async", "new")) and not f.raw.get("impl_trait")]
     by = {}
     for f in fns:
         by.setdefault((f.raw.get("self_ty") or ""), {})[f.name] = f
@@ -120,7 +121,7 @@ def run(ctx):
         else:
             ctx.violated("R16.1", af, "sibling:%s" % af.name, af.loc(),
                          "the async `%s` does not have the effect skeleton of its sync twin `%s`:\n    async: %s\n    sync:  %s" % (af.path, sf.path, a, s))
-    ctx.floor("R16.1", n, 24)
+    ctx.floor("R16.1", n, 22)
     # R16.2 / R16.3: the async poll paths
     leaves = find_poll_leaf(F)
     k = 0
